@@ -928,14 +928,18 @@ def parse_http_response(raw: bytes):
     return status, hdr, body
 
 
-def classify_body(body, tpl: Template) -> tuple[str, str]:
-    """-> (class, detail): proper | fault | empty | soap_other | text."""
+def classify_body(body, tpl: Template, status: int) -> tuple[str, str]:
+    """-> (class, detail): proper | fault | empty | soap_other | text.
+
+    proper = the response of this request type (for request types answered without content: an empty body
+    together with a success status).
+    """
     if body is None:
         return 'text', 'undecodable'
     if isinstance(body, str):
         body = body.encode('utf-8')
     if len(body) == 0:
-        return ('proper', 'empty') if tpl.resp_tag == '' else ('empty', '')
+        return ('proper', 'empty') if tpl.resp_tag == '' and 200 <= status < 300 else ('empty', '')
     try:
         root = etree.fromstring(body, parser=etree.XMLParser(resolve_entities=False, no_network=True))
     except etree.XMLSyntaxError:
@@ -1110,13 +1114,13 @@ class Executor:
             if parsed is not None:
                 status, _hdr, body = parsed
                 actual['status'] = status
-                cls, detail = classify_body(body, tpl)
+                cls, detail = classify_body(body, tpl, status)
                 actual['body'] = cls
                 actual['detail'] = actual['detail'] or detail
         elif 'result' in info:
             status, _reason, body = info['result']
             actual['status'] = status if isinstance(status, int) else -1
-            cls, detail = classify_body(body, tpl)
+            cls, detail = classify_body(body, tpl, actual['status'])
             actual['body'] = cls
             actual['detail'] = actual['detail'] or detail
         actual['handled'] = 'handled' in events
